@@ -22,6 +22,15 @@ def hex4 (n : Nat) : String :=
 
 def fmtStr (s : List Nat) : String := " ".intercalate (s.map hex4)
 
+/-- state strings of the `stabilize` protocol (harness/src/ops.rs): family 0 = "a" repeated i+1 times; family 1 = strings
+with 2- and 3-byte characters sharing lead bytes and prefixes -/
+def stabFamily1 : List (List Nat) :=
+  [[0x78], [0xE9], [0x79], [0xE8], [0xE9, 0xE8], [0x30AF], [0x30B0], [0xE9, 0xE9], [0x61, 0x62], [0x61], [0xE9, 0xE8, 0x30AF], [0x30AF, 0xE9]]
+def stabState (family : String) (i : Nat) : List Nat :=
+  if family == "1" then stabFamily1.getD (i % 12) [] else List.replicate (i + 1) 0x61
+def stabIndex (family : String) (s : List Nat) : Nat :=
+  if family == "1" then stabFamily1.idxOf s else s.length - 1
+
 /-- `usize` arguments: decimal, or the boundary names the harness understands -/
 def parseUsize (s : String) : Nat :=
   match s with
